@@ -7,9 +7,12 @@
     Two versions of the code are modelled:
     - [Pinned]: the tree as found (defect D47): [offset + count] is an unchecked [usize]
       addition (panics in the debug profile, wraps in the release profile) and [delete_data]
-      refuses a count that runs past the end;
-    - [Repaired]: after the `fix:` commit (saturating addition, only [offset > length] is an
-      error).  This is the code the correspondence check runs against.
+      refuses a count that runs past the end; the validity check looks at the inserted
+      FRAGMENT only, [delete_data] checks nothing, and [replace_data] is [delete_data] followed by
+      [insert_data] (defects D39, D46 of properties C13 / C15);
+    - [Repaired]: after the `fix:` commits (saturating addition, only [offset > length] is an
+      error; one primitive [replace_char_range] that validates the RESULTING string and changes
+      nothing when it is refused).  This is the code the correspondence check runs against.
 
     No proofs here. *)
 From Coq Require Import List NArith Bool.
@@ -132,13 +135,22 @@ Definition check (k : kind) (s : str) : bool :=
   | KCData => check_cdata s
   end.
 
-(** [fn insert_char_at(value, offset, new, check)]: [index = min offset len]; if [check(new)]
-    then [chars.split_off(index)] and glue, else [Err(InvalidData)] (a parser error inside
-    [check] surfaces as [Err(Parse)]: same class for the harness) *)
-Definition insert_char_at (k : kind) (s : str) (offset : N) (new : str) : ires str :=
+(** [fn insert_char_at(value, offset, new, check)]: [index = min offset len]; glue; the pinned code
+    checks the fragment [new], the repaired code the resulting string; [Err(InvalidData)] when the
+    check fails (a parser error inside [check] surfaces as [Err(Parse)]: same class for the harness) *)
+Definition insert_char_at (v : version) (k : kind) (s : str) (offset : N) (new : str) : ires str :=
   let n := len s in
   let index := if offset <? n then offset else n in
-  if check k new then IOk (take index s ++ new ++ drop index s) else IInvalid.
+  let r := take index s ++ new ++ drop index s in
+  if check k (match v with Pinned => new | Repaired => r end) then IOk r else IInvalid.
+
+(** [fn replace_char_range(value, offset, count, new, check)] (repaired code only): delete the range,
+    insert, validate the result; nothing is changed when it is refused *)
+Definition replace_char_range (p : profile) (k : kind) (s : str) (offset count : N) (new : str) : ires str :=
+  match delete_char_range Repaired p s offset count with
+  | IOk d => insert_char_at Repaired k d offset new
+  | e => e
+  end.
 
 (** [fn split_at(offset)]: at [min offset len]; the tail becomes a new node *)
 Definition info_split_at (s : str) (offset : N) : str * str :=
@@ -173,38 +185,51 @@ Definition m_substring_data (v : version) (p : profile) (k : kind) (st : cdstate
        end.
 
 (** [fn insert_data(offset, arg)] *)
-Definition m_insert_data (k : kind) (st : cdstate) (offset : N) (arg : str) : mres :=
+Definition m_insert_data (v : version) (k : kind) (st : cdstate) (offset : N) (arg : str) : mres :=
   if m_length st <? offset then MRaised IndexSizeErr st
-  else match insert_char_at k (data st) offset arg with
+  else match insert_char_at v k (data st) offset arg with
        | IOk d => MDone VUnit (with_data st d)
        | IInvalid => MInvalidArg st
        | IPanic => MPanic
        end.
 
-(** [fn delete_data(offset, count)]: the pinned code tests [length < offset + count], the
-    repaired code [length < offset] *)
-Definition m_delete_data (v : version) (p : profile) (st : cdstate) (offset count : N) : mres :=
-  let bound :=
-    match v with
-    | Pinned => usize_add p offset count
-    | Repaired => Some offset
-    end in
-  match bound with
-  | None => MPanic
-  | Some b =>
-      if m_length st <? b then MRaised IndexSizeErr st
-      else match delete_char_range v p (data st) offset count with
-           | IOk d => MDone VUnit (with_data st d)
-           | _ => MPanic
-           end
+(** the repaired [replace_data] of the three node types: [length < offset] is the only DOM error,
+    then [replace(offset, count, arg)] on the info node *)
+Definition m_edit_data (p : profile) (k : kind) (st : cdstate) (offset count : N) (arg : str) : mres :=
+  if m_length st <? offset then MRaised IndexSizeErr st
+  else match replace_char_range p k (data st) offset count arg with
+       | IOk d => MDone VUnit (with_data st d)
+       | IInvalid => MInvalidArg st
+       | IPanic => MPanic
+       end.
+
+(** [fn delete_data(offset, count)]: the pinned code tests [length < offset + count] and deletes
+    unchecked; the repaired code tests [length < offset] and goes through [replace(offset, count, "")] *)
+Definition m_delete_data (v : version) (p : profile) (k : kind) (st : cdstate) (offset count : N) : mres :=
+  match v with
+  | Pinned =>
+    match usize_add p offset count with
+    | None => MPanic
+    | Some b =>
+        if m_length st <? b then MRaised IndexSizeErr st
+        else match delete_char_range v p (data st) offset count with
+             | IOk d => MDone VUnit (with_data st d)
+             | _ => MPanic
+             end
+    end
+  | Repaired => m_edit_data p k st offset count []
   end.
 
-(** trait default [fn replace_data]: [self.delete_data(offset, count)?; self.insert_data(offset, arg)]
-    -- when the insertion is refused the deletion has already happened (D39, property C13) *)
+(** [fn replace_data]: pinned = trait default [self.delete_data(offset, count)?; self.insert_data(offset, arg)]
+    -- when the insertion is refused the deletion has already happened (D39); repaired = one edit *)
 Definition m_replace_data (v : version) (p : profile) (k : kind) (st : cdstate) (offset count : N) (arg : str) : mres :=
-  match m_delete_data v p st offset count with
-  | MDone _ st' => m_insert_data k st' offset arg
-  | r => r
+  match v with
+  | Pinned =>
+    match m_delete_data v p k st offset count with
+    | MDone _ st' => m_insert_data v k st' offset arg
+    | r => r
+    end
+  | Repaired => m_edit_data p k st offset count arg
   end.
 
 (** trait default [fn set_data]: [self.replace_data(0, self.length(), data)] *)
@@ -212,8 +237,8 @@ Definition m_set_data (v : version) (p : profile) (k : kind) (st : cdstate) (arg
   m_replace_data v p k st 0 (m_length st) arg.
 
 (** trait default [fn append_data]: [self.insert_data(self.length(), arg)] *)
-Definition m_append_data (k : kind) (st : cdstate) (arg : str) : mres :=
-  m_insert_data k st (m_length st) arg.
+Definition m_append_data (v : version) (k : kind) (st : cdstate) (arg : str) : mres :=
+  m_insert_data v k st (m_length st) arg.
 
 (** [fn split_text(offset)] for a node whose parent is an element: [split_at], then
     [insert_after(tail, self)] on the parent *)
@@ -236,9 +261,9 @@ Definition model_call_v (v : version) (p : profile) (k : kind) (st : cdstate) (c
   match c with
   | Length => MDone (VNum (m_length st)) st
   | Substring off cnt => m_substring_data v p k st off cnt
-  | Append arg => m_append_data k st arg
-  | Insert off arg => m_insert_data k st off arg
-  | Delete off cnt => m_delete_data v p st off cnt
+  | Append arg => m_append_data v k st arg
+  | Insert off arg => m_insert_data v k st off arg
+  | Delete off cnt => m_delete_data v p k st off cnt
   | Replace off cnt arg => m_replace_data v p k st off cnt arg
   | SetData arg => m_set_data v p k st arg
   | Split off => m_split_text st off
